@@ -1,6 +1,8 @@
 """C04 — TL1-to-TL2 conversion preserves values (DESIGN.md §4 C04)."""
 from checks import codec_common as cc, codec_tl2 as t2
-from vlib.core import hx, run_lines
+import os
+
+from vlib.core import ROOT, hx, run_lines
 
 MODULES = ["TLVerif.Props.C04"]
 THEOREMS = ["TLVerif.Props.C04." + t for t in [
@@ -18,7 +20,8 @@ NEGZERO = [("cases.testDictAny", 1, "db4d2b25" + "01000000" + "0000000000000080"
 
 def corpus(c):
     T = cc.TLS
-    s = [cc.Schema("cases", [T + "/cases.tl"], tl2="*", sanity=True, bytes_wl="cases_bytes.")]
+    s = [cc.Schema("cases", [T + "/cases.tl"], tl2="*", sanity=True, bytes_wl="cases_bytes."),
+         cc.Schema("wd", [os.path.join(ROOT, "schemas", "wide.tl")], tl2="*", sanity=True, bytes_wl="wd.")]
     if c.thorough:
         s += [cc.Schema("gold", [T + "/goldmaster.tl", T + "/goldmaster2.tl", T + "/goldmaster3.tl"], tl2="*", sanity=True, split=True),
               cc.Schema("casesns", [T + "/cases.tl"], tl2="cases.,casesTL2.", sanity=False)]
@@ -53,7 +56,9 @@ def run(c):
             for boxed in (0, 1):
                 if inst["kind"] == "union" and not boxed:
                     continue
-                for _ in range(per):
+                for k in range(per):
+                    # dense and sparse objects: in a sparse one nothing non-empty follows a set `true` bit / a late field
+                    g1.zero_bias = (0, 0, 60, 95)[k % 4]
                     lines.append(t2.x2_line(sc, inst, boxed, g1.value(inst["idx"], not boxed, [], 0)))
             for _ in range(per // 2):
                 rnd.append(("codec.rand %s %d %s %d" % (sc.sid, inst["idx"], inst["tlname"], rng.below(2 ** 32)), inst))
